@@ -198,4 +198,15 @@ def intersect1 (out inp : List Path) : List Path :=
 def intersect (mx my : List Path) : List Path :=
   normalize (intersect1 (intersect1 (union mx my) mx) my)
 
+/-! ## pkg/masks/paths.go -/
+
+/-- `strings.HasPrefix(p, q + ".")` on segments: `q` is a proper prefix of `p`. -/
+def strictPrefix (q p : Path) : Bool := hasPrefix p q && decide (q.length < p.length)
+
+/-- `withoutNestedPaths`: drop every path that lies inside another path of the list. -/
+def minimal (ps : List Path) : List Path := ps.filter (fun p => !ps.any (fun q => strictPrefix q p))
+
+/-- `nestedMask(paths)`. -/
+def nestedMask (ps : List Path) : Mask := Mask.fromPaths (minimal ps)
+
 end ScVerif.C05
